@@ -49,7 +49,26 @@ def line_tokens(line):
     return toks, ci
 
 
-def relayout(text, rng, ws=0.3, case=0.0, eol_comment=0.0, own_comment=0.0, split=0.0, join=0.0, blank=0.0, tabs=False, trailing=0.0, crlf=False):
+GLUE_LEFT = set("),;:")
+GLUE_RIGHT = set("(,;:")
+
+
+def _can_glue(prev, nxt):
+    """may the whitespace between two code tokens go without merging them into another token?
+    only next to a parenthesis / comma / semicolon / colon, and never producing `:=`, `=>`, … """
+    if not prev or not nxt:
+        return False
+    a, b = prev[-1], nxt[0]
+    if prev.startswith(("--", "/*")) or nxt.startswith(("--", "/*", "*/")):
+        return False
+    if a in GLUE_LEFT and (b.isalnum() or b in "_\"'(" ):
+        return a != ":" or b != "="
+    if b in GLUE_RIGHT and (a.isalnum() or a in "_\"')"):
+        return True
+    return False
+
+
+def relayout(text, rng, ws=0.3, case=0.0, eol_comment=0.0, own_comment=0.0, split=0.0, join=0.0, blank=0.0, tabs=False, trailing=0.0, crlf=False, glue=0.0):
     """returns a re-laid-out text.  Probabilities are per opportunity."""
     lines = text.split("\n")
     if lines and lines[-1] == "":
@@ -91,6 +110,8 @@ def relayout(text, rng, ws=0.3, case=0.0, eol_comment=0.0, own_comment=0.0, spli
                     continue
                 if split and 0 < i < len(code) - 1 and rng.random() < split:
                     pieces.append([" " * rng.randrange(0, 6)])
+                    continue
+                if glue and 0 < i < len(code) - 1 and rng.random() < glue and _can_glue(code[i - 1], code[i + 1]):
                     continue
                 if rng.random() < ws:
                     t = " " * rng.randrange(1, 5) if not (tabs and rng.random() < 0.3) else "\t"
@@ -142,12 +163,14 @@ def variant(text, rng, kind):
         return relayout(text, rng, ws=0.5, case=0.3, eol_comment=0.25, own_comment=0.05, split=0.1, join=0.05, blank=0.05, trailing=0.1)
     if kind == "tabs":
         return relayout(text, rng, ws=0.4, tabs=True, trailing=0.2)
+    if kind == "glue":
+        return relayout(text, rng, ws=0.2, glue=0.7, eol_comment=0.15)
     if kind == "splitall":
         return relayout(text, rng, ws=0.0, split=0.6, eol_comment=0.3)
     raise ValueError(kind)
 
 
-VARIANTS = ["ws", "case", "comments", "lines", "messy", "tabs", "splitall"]
+VARIANTS = ["ws", "case", "comments", "lines", "messy", "tabs", "splitall", "glue"]
 
 
 # ------------------------------------------------------------------ configurations
@@ -270,6 +293,23 @@ def named_config(name, tables, rng):
         return None, [{"rule": {"group": {"case": {"case": "upper"}}}}]
     if name == "all_enabled":
         return None, [{"rule": {r["id"]: {"disable": False} for r in tables["rules"] if not r["deprecated"] and r["phase"] != 0 and r["disable"]}}]
+    if name == "optional_remove":
+        # every rule option that has a documented alternative is flipped away from its default
+        # (action: remove, parenthesis: remove, method: entity, clock: edge, style alternatives …)
+        conf = {}
+        for r in tables["rules"]:
+            if r["deprecated"] or r["phase"] == 0:
+                continue
+            d = {}
+            for nm in r["configuration"]:
+                if nm in ("phase", "disable", "fixable", "severity", "user_error_message", "indent_style", "indent_size", "case", "number_of_spaces"):
+                    continue
+                vals = [v for v in option_values(r, nm) if v != r["defaults"].get(nm)]
+                if vals and nm in ("action", "parenthesis", "method", "clock", "style"):
+                    d[nm] = vals[0]
+            if d:
+                conf[r["id"]] = d
+        return None, [{"rule": conf}]
     if name == "random":
         return None, [random_rule_config(tables, rng)]
     if name == "random_jcl":
